@@ -15,6 +15,16 @@ func yields2(o *e1.Outcome) bool { return o.Run != nil && o.Run.MaxYields >= 2 }
 // C01 — compiled generators yield exactly the source's coroutine sequence.
 func C01(c *Ctx) {
 	progs := ctlStream(c)
+	// values are functions of variables, delegates and ranged collections: the directed cases of the
+	// neighbouring profiles and a PRNG sample of scope programs are compared on their value projection too
+	progs = append(progs, cases.Scope()...)
+	progs = append(progs, cases.Fx()...)
+	progs = append(progs, cases.Deleg()...)
+	nsc := 150
+	if c.Thorough() {
+		nsc = 1500
+	}
+	progs = append(progs, genr.Scope(nsc, c.Seed+11)...)
 	c.Rep.Rule = "directed + bounded-exhaustive + PRNG control-flow programs, each under every decision-tape path (depth-first over the bits the reference run asks for, capped) and the drain history + truncations; compared: projection of the trace onto MoveNext results and Current values (compiled vs reference coroutine). non-trivial = reference yields >= 2 values on some path; distinct = shape hash x tape."
 	RunE1(c, E1Spec{
 		Programs: progs,
@@ -106,6 +116,15 @@ func C02(c *Ctx) {
 	progs = append(progs, ex...)
 	progs = append(progs, genr.Random(genr.Fx, nrand, c.Seed+1, q)...)
 	progs = append(progs, genr.Random(genr.Panic, nrand/3, c.Seed+4, q)...) // leading guards, panicking yield arguments: effects must not move to creation time
+	// range loops: the range expression is evaluated exactly once, by the step that enters the loop
+	progs = append(progs, cases.Range()...)
+	progs = append(progs, cases.Scope()...)
+	nrg := 500
+	if c.Thorough() {
+		nrg = 0
+	}
+	rg, _ := genr.Range(c.Seed+12, nrg, q)
+	progs = append(progs, rg...)
 	c.Rep.Set("exhaustive_shapes_total", total)
 	c.Rep.Set("exhaustive_shapes_complete", complete)
 	c.Rep.Rule = "effect-dense programs (variables mutated after being yielded, effects in every slot) under every decision-tape path and the histories drain / K=0,1,2,4 / 2 calls after exhaustion; compared: the FULL interleaved trace (consumer call/return markers + generator-side effects and expression evaluations) compiled vs reference coroutine, plus 'no event after the consumer stopped'. non-trivial = >= 2 yields on some path; distinct = shape hash x tape."
@@ -191,6 +210,14 @@ func C03(c *Ctx) {
 		n = 8000
 	}
 	progs = append(progs, genr.Scope(n, c.Seed)...)
+	// iteration variables of range loops: one variable per iteration, updates by the body do not leak into the iteration
+	progs = append(progs, cases.Range()...)
+	rg, _ := genr.Range(c.Seed+13, 0, c.Rep.QuarantinedFeatures())
+	for _, p := range rg {
+		if p.Has("range-body:capture") || p.Has("range-body:yield-after-loop-var-update") {
+			progs = append(progs, p)
+		}
+	}
 	c.Rep.Rule = "programs that declare, shadow (nested blocks, if/for/switch/type-switch initialisers, range variables, case clauses), update and capture int locals from a 4-name pool at arbitrary positions relative to yields; every relevant variable read is a trace event r<id>=<value>; compared: full trace compiled vs reference coroutine under every tape path. non-trivial = >= 2 yields and the program shadows or captures; distinct = program text hash x tape."
 	RunE1(c, E1Spec{
 		Programs:             progs,
@@ -207,12 +234,19 @@ func C03(c *Ctx) {
 // C04 — range loops inside generators behave like Go's range.
 func C04(c *Ctx) {
 	q := c.Rep.QuarantinedFeatures()
-	keep := 900
-	if c.Thorough() {
-		keep = 0
-	}
+	// the whole systematic space is small enough for the quick tier; the thorough tier adds the other
+	// wrapping variant of every range expression and every program in a second generator form
+	keep := 0
 	gen, total := genr.Range(c.Seed, keep, q)
 	progs := append(cases.Range(), gen...)
+	if c.Thorough() {
+		alt, _ := genr.Range(c.Seed+1, keep, q)
+		for i, p := range alt {
+			if w := genr.WithForm(p, 1+i%(genr.NForms-1)); w != nil {
+				progs = append(progs, w)
+			}
+		}
+	}
 	c.Rep.Set("systematic_range_programs_total", total)
 	c.Rep.Exhaustive = keep == 0
 	c.Rep.Rule = "systematic cross product: 18 collection kinds (ASCII / multi-byte / invalid-UTF-8 / empty / reassigned strings, slices incl. nil and spare capacity, arrays, maps, channels, ints incl. 0 and negative) x 8 variable forms (none, k, k/_ , k/v, _/v with := and =) x 6 body shapes (yielding, non-yielding, inside a nested closure, break/continue, nested ranges, body updates the iteration variable) x mutation of the ranged collection at the first iteration; range expression wrapped to count evaluations; reference = Go's native range statement on the same text. Multi-entry maps compared as sorted multisets. non-trivial = >= 2 yields; distinct = program text hash x tape."
